@@ -38,8 +38,27 @@ class C01(Prop):
     budgets = {"quick": 300, "thorough": 6000}
     assumptions = ["generated values compare structurally (no bool/float/NaN)", "node functions are deterministic"]
 
+    @staticmethod
+    def _equal_distinct_defaults(rng: random.Random) -> dict:
+        """Two (or three) nodes share a parameter nobody supplies, each with its OWN signature default; the defaults are equal under ==
+        but distinct (1 / True, 0 / False): every node computes from its own default, whatever the node order."""
+        pair = rng.choice([[1, True], [True, 1], [0, False], [False, 0]])
+        nodes = [{"name": "price", "kind": "fn", "params": [["x", None], ["k", {"d": pair[0]}]], "dataOuts": ["scaled"], "body": {"b": "tag", "t": "price"}},
+                 {"name": "show", "kind": "fn", "params": [["k", {"d": pair[1]}]] + ([["x", None]] if rng.random() < 0.5 else []), "dataOuts": ["rep"], "body": {"b": "tag", "t": "show"}}]
+        if rng.random() < 0.5:
+            nodes.append({"name": "third", "kind": "fn", "params": [["scaled", None], ["k", {"d": rng.choice(pair)}]], "dataOuts": ["t3"], "body": {"b": "tag", "t": "third"}})
+        rng.shuffle(nodes)
+        return {"program": [{"name": "g0", "nodes": nodes, "bound": []}], "values": [["x", rng.randint(0, 4)]]}
+
     def cases(self, rng: random.Random, tier: str) -> Iterable[dict]:
+        forced_eq = 4
         while True:
+            if forced_eq or rng.random() < 0.04:
+                forced_eq = max(0, forced_eq - 1)
+                c = self._equal_distinct_defaults(rng)
+                for runner in ("sync", "async"):
+                    yield {"program": c["program"], "values": c["values"], "runner": runner, "late_renames": rng.random() < 0.5}
+                continue
             mx = 8 if tier == "quick" else rng.choice([4, 8, 14])
             if rng.random() < 0.12:
                 c = gen.gen_fed_cascade(rng)
@@ -111,9 +130,11 @@ class C01(Prop):
         exposed = refeval.graph_outputs(program, len(program) - 1)
         expect = {k: enc_val(v) for k, v in ref.values.items() if k in exposed}
         got = dict((k, v) for k, v in obs["values"])
-        if impl.differ(got, expect) and got == expect:
-            # the results differ only by an equal value of another type (True vs 1): the version of a name does not advance when it is
-            # replaced by an EQUAL value, so consumers keep what they computed from the earlier, equal one (known finding C01-F2)
+        if impl.differ(got, expect) and got == expect and has_fed_default(program):
+            # the results differ only by an equal value of another type (True vs 1) AND some parameter has a default that an upstream
+            # node replaces: the version of a name does not advance when it is replaced by an EQUAL value, so consumers keep what they
+            # computed from the earlier, equal one (known finding C01-F2 — its mechanism needs the fed default; the same kind of
+            # difference WITHOUT one is another defect and is reported below)
             return f"returned values differ from dependency-order evaluation only by equal values of another type: got {got!r}, expected {expect!r}"
         if impl.differ(got, expect):
             return f"returned values differ from dependency-order evaluation: got {got!r}, expected {expect!r}"
